@@ -780,6 +780,28 @@ int sim_main(int argc, char **argv) {
                 mkdir(cand.c_str(), 0777);
                 std::string path = cand + "/" + e->name() + "-" + std::to_string(seed) + ".plan";
                 q.save(path);
+                {
+                    // does the plan alone name this violation?  If the pristine process disagrees,
+                    // try the plan that also replays this worker's earlier operations.
+                    std::string hp = e->history_plan(q);
+                    if (!hp.empty()) {
+                        GuardedResult g0 = guarded_execute(*e, q);
+                        if (!(g0.out.cls == o.cls && g0.out.key == o.key)) {
+                            Plan h;
+                            std::string err;
+                            if (Plan::from_text(hp, h, err)) {
+                                h.expect_class = o.cls;
+                                h.expect_key = o.key;
+                                GuardedResult g1 = guarded_execute(*e, h);
+                                if (g1.out.cls == o.cls && g1.out.key == o.key) {
+                                    h.save(path);
+                                    stat("violations_replayed_with_worker_history");
+                                } else
+                                    stat("violations_not_reproduced_in_pristine_process");
+                            }
+                        }
+                    }
+                }
                 printf("V %llu %llu %016llx class=%s plan=%s key=%s\n", (unsigned long long)idx,
                        (unsigned long long)seed, (unsigned long long)o.hash, o.cls.c_str(),
                        path.c_str(), o.key.c_str());
